@@ -520,7 +520,11 @@ func setFamily(id string) {
 		pkgKind = "Function"
 	}
 	revGK.Kind = pkgKind + "Revision"
+	ghostRef = (h.Sum32()/2)%2 == 1
 }
+
+// ghostRef: objects that R1 controls before the scenario also carry a dangling reference of an earlier incarnation of R1.
+var ghostRef bool
 
 // newPkg / newRev: empty objects of the scenario's package type.
 func newPkg() pkgv1.Package {
@@ -647,9 +651,18 @@ func newWorld(tw *trace.Writer, id string, init map[string]any, workers int) *wo
 		switch st {
 		case "free":
 		case "R1":
-			o.OwnerReferences = []metav1.OwnerReference{
-				{APIVersion: "pkg.crossplane.io/v1", Kind: revGK.Kind, Name: revName("R1"), UID: revUID["R1"], Controller: ptr.To(true), BlockOwnerDeletion: ptr.To(true)},
-				{APIVersion: "pkg.crossplane.io/v1", Kind: pkgKind, Name: pkgName, UID: p.GetUID(), Controller: ptr.To(false), BlockOwnerDeletion: ptr.To(true)}}
+			o.OwnerReferences = nil
+			if ghostRef {
+				// a dangling reference of an EARLIER incarnation of R1 (revision names are a function of package and digest: a
+				// roll-back re-creates a revision under its old name with a new uid) - same kind and name, another uid, a plain
+				// owner, listed first. It is not R1: whoever looks its own reference up by kind and name instead of by uid finds
+				// this one (added after the seeded change C16-m7 was missed)
+				o.OwnerReferences = append(o.OwnerReferences, metav1.OwnerReference{APIVersion: "pkg.crossplane.io/v1", Kind: revGK.Kind,
+					Name: revName("R1"), UID: "ghost-of-r1", Controller: ptr.To(false), BlockOwnerDeletion: ptr.To(true)})
+			}
+			o.OwnerReferences = append(o.OwnerReferences,
+				metav1.OwnerReference{APIVersion: "pkg.crossplane.io/v1", Kind: revGK.Kind, Name: revName("R1"), UID: revUID["R1"], Controller: ptr.To(true), BlockOwnerDeletion: ptr.To(true)},
+				metav1.OwnerReference{APIVersion: "pkg.crossplane.io/v1", Kind: pkgKind, Name: pkgName, UID: p.GetUID(), Controller: ptr.To(false), BlockOwnerDeletion: ptr.To(true)})
 		case "Q":
 			o.OwnerReferences = []metav1.OwnerReference{
 				{APIVersion: "pkg.crossplane.io/v1", Kind: revGK.Kind, Name: "other-r1", UID: qr.GetUID(), Controller: ptr.To(true), BlockOwnerDeletion: ptr.To(true)}}
